@@ -4,6 +4,7 @@ import elock
 import eptr
 import eidx
 import eslab
+import eslabmodel
 import ecanon
 import elin
 import evlm
@@ -80,6 +81,11 @@ def run(ctx):
                 "inside the page; Page::page_ptr masks any address of the page to its base.")
     nsl = eslab.run(ctx, F)
     ctx.floor("E-SLAB.page", "interpreted slab page situations", nsl, 4)
+    ctx.explain("E-SLAB.model: PageList::new / get_slot and Page::free_slot of the pointer-based store's slab allocator interpreted with integer "
+                "addresses and a memory of slot links and page headers: 30 allocations return distinct slots inside allocated, chained "
+                "pages; freed slots are reused last-in first-out; no slot in use is ever handed out.")
+    nsm2 = eslabmodel.run(ctx, F)
+    ctx.floor("E-SLAB.model", "interpreted slab allocations", nsm2, 35)
     ctx.explain("E-REC.depth: every splitting method of the ParallelRecursors decrements remaining_depth, the switch to the "
                 "sequential recursor happens exactly at 0, and the SequentialRecursor never asks for a switch.")
     nrd = elock.run_recursor_depth(ctx, F)
